@@ -6,15 +6,24 @@ Import ListNotations.
 Open Scope N_scope.
 
 (* ---- characters ------------------------------------------------------------ *)
-Lemma ncname_char_not_space c : ncname_char c = true -> py_isspace c = false.
-Proof. apply not_space_by_pred. vm_compute. reflexivity. Qed.
+(* inclusion of code point range lists, decided on the end points *)
+Definition ranges_subset (A B : list (N * N)) : bool :=
+  forallb (fun r => existsb (fun r' => (fst r' <=? fst r) && (snd r <=? snd r')) B) A.
+
+Lemma ranges_subset_sound A B c :
+  ranges_subset A B = true ->
+  existsb (fun r => (fst r <=? c) && (c <=? snd r)) A = true ->
+  existsb (fun r => (fst r <=? c) && (c <=? snd r)) B = true.
+Proof.
+  unfold ranges_subset. rewrite forallb_forall. intros S H.
+  apply existsb_exists in H as [r [Hr Hc]]. specialize (S r Hr).
+  apply existsb_exists in S as [r' [Hr' Hs]]. apply existsb_exists. exists r'. split; [exact Hr'|].
+  apply andb_true_iff in Hc as [C1 C2]. apply andb_true_iff in Hs as [S1 S2].
+  apply N.leb_le in C1, C2, S1, S2. apply andb_true_iff. split; apply N.leb_le; lia.
+Qed.
 
 Lemma ncname_start_char c : ncname_start c = true -> ncname_char c = true.
-Proof.
-  unfold ncname_start, ncname_char. intros H. apply orb_true_iff in H as [H|H].
-  - rewrite H. reflexivity.
-  - apply N.eqb_eq in H. subst. vm_compute. reflexivity.
-Qed.
+Proof. apply ranges_subset_sound. vm_compute. reflexivity. Qed.
 
 Lemma ncname_char_neq c x : ncname_char x = false -> ncname_char c = true -> c <> x.
 Proof. intros Hx Hc ->. congruence. Qed.
@@ -135,66 +144,87 @@ Definition lookup_uri (po : option str) (m : option nsmap) : option str :=
   | _ => None
   end.
 
-Lemma qlex_facts po local :
-  is_ncname local = true -> match po with None => True | Some p => is_ncname p = true end ->
-  qlex po local <> [] /\ ncname_char (hd 0 (qlex po local)) = true /\ ncname_char (last (qlex po local) 0) = true.
+(* a name that survives str.strip(): see Model.ConvGuards.name_edges_ok *)
+Definition good_name (s : str) : bool := is_ncname s && name_edges_ok s.
+Definition good_prefix (po : option str) : Prop := match po with None => True | Some p => good_name p = true end.
+
+Lemma good_name_parts s :
+  good_name s = true -> is_ncname s = true /\ py_isspace (hd 0 s) = false /\ py_isspace (last s 0) = false.
 Proof.
-  intros Hl Hp. destruct (is_ncname_chars local Hl) as [Ln Lc]. destruct po as [p|]; cbn [qlex].
-  - destruct (is_ncname_chars p Hp) as [Pn Pc]. split; [destruct p; [congruence|discriminate]|]. split.
+  unfold good_name, name_edges_ok. intros H. apply andb_true_iff in H as [H1 H2].
+  apply andb_true_iff in H2 as [H2 H3]. apply negb_true_iff in H2, H3. auto.
+Qed.
+
+Lemma qlex_facts po local :
+  good_name local = true -> good_prefix po ->
+  qlex po local <> [] /\ ncname_char (hd 0 (qlex po local)) = true
+  /\ py_isspace (hd 0 (qlex po local)) = false /\ py_isspace (last (qlex po local) 0) = false.
+Proof.
+  intros Hl Hp. destruct (good_name_parts local Hl) as [Nl [Lh Ll]].
+  destruct (is_ncname_chars local Nl) as [Ln Lc]. destruct po as [p|]; cbn [qlex].
+  - destruct (good_name_parts p Hp) as [Np [Ph _]]. destruct (is_ncname_chars p Np) as [Pn Pc].
+    split; [destruct p; [congruence|discriminate]|]. split; [|split].
     + destruct p as [|c r]; [congruence|]. cbn. cbn in Pc. apply andb_true_iff in Pc. tauto.
-    + rewrite last_app_nonempty by discriminate. change ([58] ++ local) with ([58] ++ local).
-      rewrite last_app_nonempty by exact Ln. apply forallb_last; assumption.
-  - split; [exact Ln|]. split; [apply forallb_hd|apply forallb_last]; assumption.
+    + destruct p as [|c r]; [congruence|]. exact Ph.
+    + rewrite last_app_nonempty by discriminate.
+      rewrite last_app_nonempty by exact Ln. exact Ll.
+  - split; [exact Ln|]. split; [apply forallb_hd; assumption|]. split; assumption.
 Qed.
 
 Lemma resolve_qlex po local m a b :
-  is_ncname local = true -> match po with None => True | Some p => is_ncname p = true end ->
+  good_name local = true -> good_prefix po ->
   forallb xml_ws a = true -> forallb xml_ws b = true ->
   qname_resolve (a ++ qlex po local ++ b) m
   = if truthy po && negb (truthy (lookup_uri po m)) then None else Some (lookup_uri po m, local).
 Proof.
-  intros Hl Hp Ha Hb. destruct (qlex_facts po local Hl Hp) as [Qn [Qh Ql]].
+  intros Hl Hp Ha Hb. destruct (qlex_facts po local Hl Hp) as [Qn [Qc [Qh Ql]]].
+  destruct (good_name_parts local Hl) as [Nl _].
   unfold qname_resolve, py_strip.
   rewrite strip_by_wrap_hd_last; try assumption.
   2: eapply forallb_impl; [apply xml_ws_py_isspace|exact Ha].
   2: eapply forallb_impl; [apply xml_ws_py_isspace|exact Hb].
-  2: apply ncname_char_not_space, Qh.
-  2: apply ncname_char_not_space, Ql.
-  destruct (qlex po local) as [|c rest] eqn:E; [congruence|]. cbn [hd] in Qh.
-  destruct (N.eqb_spec c 123) as [->|_]; [rewrite nc_not_lbrace in Qh; discriminate|].
+  destruct (qlex po local) as [|c rest] eqn:E; [congruence|]. cbn [hd] in Qc.
+  destruct (N.eqb_spec c 123) as [->|_]; [rewrite nc_not_lbrace in Qc; discriminate|].
   rewrite <- E.
   assert (TS : text_split 58 (qlex po local) = (po, local)).
-  { destruct (is_ncname_chars local Hl) as [Ln Lc]. destruct po as [p|]; cbn [qlex].
-    - destruct (is_ncname_chars p Hp) as [_ Pc]. apply text_split_at; [|exact Ln].
+  { destruct (is_ncname_chars local Nl) as [Ln Lc]. destruct po as [p|]; cbn [qlex].
+    - destruct (good_name_parts p Hp) as [Np _]. destruct (is_ncname_chars p Np) as [_ Pc].
+      apply text_split_at; [|exact Ln].
       apply (forallb_not_mem ncname_char 58 p nc_not_colon Pc).
     - apply text_split_absent. apply (forallb_not_mem ncname_char 58 local nc_not_colon Lc). }
   rewrite TS. fold (lookup_uri po m).
-  rewrite (is_ncname_name_ok local Hl). reflexivity.
+  rewrite (is_ncname_name_ok local Nl). reflexivity.
 Qed.
 
 (* ---- acceptance of xs:QName literals -------------------------------------------------- *)
-Lemma xsd_ncname_py s : xsd_ncname s = true -> qname_py_guard s = true -> is_ncname s = true.
+Lemma spec_start_in_model : ranges_subset xml_name_start_ranges ncname_start_ranges = true.
+Proof. vm_compute. reflexivity. Qed.
+Lemma spec_char_in_model : ranges_subset (xml_name_start_ranges ++ xml_name_extra_ranges) ncname_char_ranges = true.
+Proof. vm_compute. reflexivity. Qed.
+
+(* is_ncname covers the NCName production (since /repo 4e4ae03) *)
+Lemma xsd_ncname_accepted s : xsd_ncname s = true -> is_ncname s = true.
 Proof.
-  destruct s as [|c r]; [discriminate|]. cbn [xsd_ncname qname_py_guard is_ncname]. intros H G.
-  apply andb_true_iff in H as [Hc Hr]. apply andb_true_iff in G as [Gc Gr].
-  unfold py_covers_start in Gc. rewrite Hc in Gc. cbn in Gc. rewrite Gc. cbn [andb].
-  rewrite forallb_forall in *. intros x Hx. specialize (Hr x Hx). specialize (Gr x Hx).
-  unfold py_covers_char in Gr. rewrite Hr in Gr. exact Gr.
+  destruct s as [|c r]; [discriminate|]. cbn [xsd_ncname is_ncname]. intros H.
+  apply andb_true_iff in H as [Hc Hr]. apply andb_true_iff. split.
+  - apply (ranges_subset_sound _ _ c spec_start_in_model Hc).
+  - eapply forallb_impl; [|exact Hr]. intros x Hx. apply (ranges_subset_sound _ _ x spec_char_in_model).
+    unfold xml_ncname_char, in_cp_ranges in Hx. rewrite existsb_app. exact Hx.
 Qed.
 
 (* every xs:QName literal whose prefix is bound (any XML whitespace around it) is
-   accepted with the expanded name XML Namespaces assigns, unless it uses a name
-   character outside Python's isalpha/isdigit classes *)
+   accepted with the expanded name XML Namespaces assigns, unless str.strip() eats
+   its first or last character *)
 Lemma qname_accepts_xsd q env a b v :
-  wf_qname q = true -> val_qname env q = Some v -> qname_sp_py_guard q = true ->
+  wf_qname q = true -> val_qname env q = Some v -> qname_sp_edge_guard q = true ->
   forallb xml_ws a = true -> forallb xml_ws b = true ->
   qname_deser (a ++ lex_qname q ++ b) (Some env) = Some (expanded_name v).
 Proof.
-  intros Hwf Hv Hg Ha Hb. destruct q as [po local]. unfold wf_qname, qname_sp_py_guard in *.
+  intros Hwf Hv Hg Ha Hb. destruct q as [po local]. unfold wf_qname, qname_sp_edge_guard in *.
   cbn [q_prefix q_local] in *. apply andb_true_iff in Hwf as [Wl Wp]. apply andb_true_iff in Hg as [Gl Gp].
-  pose proof (xsd_ncname_py local Wl Gl) as Nl.
-  assert (Np : match po with None => True | Some p => is_ncname p = true end).
-  { destruct po as [p|]; [apply xsd_ncname_py; assumption|exact I]. }
+  assert (Nl : good_name local = true) by (unfold good_name; rewrite (xsd_ncname_accepted local Wl), Gl; reflexivity).
+  assert (Np : good_prefix po).
+  { destruct po as [p|]; [|exact I]. cbn. unfold good_name. rewrite (xsd_ncname_accepted p Wp), Gp. reflexivity. }
   unfold qname_deser. change (lex_qname (mk_qname_sp po local)) with (qlex po local).
   rewrite resolve_qlex by assumption.
   unfold val_qname in Hv. cbn [q_prefix q_local] in Hv.
@@ -202,23 +232,26 @@ Proof.
   - destruct (ns_get (Some p) env) as [[|c u]|] eqn:G; try discriminate. injection Hv as <-.
     assert (L : lookup_uri (Some p) (Some env) = Some (c :: u)).
     { destruct env; [discriminate|exact G]. }
-    rewrite L. destruct (is_ncname_chars p Np) as [Pn _]. destruct p; [congruence|]. reflexivity.
+    rewrite L. destruct (good_name_parts p Np) as [Np' _]. destruct (is_ncname_chars p Np') as [Pn _].
+    destruct p; [congruence|]. reflexivity.
   - cbn [truthy andb]. assert (L : lookup_uri None (Some env) = ns_get None env) by (destruct env; reflexivity).
     rewrite L. destruct (ns_get None env) as [[|c u]|]; injection Hv as <-; reflexivity.
 Qed.
 
+(* the unguarded statement is false: U+1680 is a NameStartChar and Python whitespace *)
 Lemma qname_accepts_xsd_refuted :
-  exists q env v, wf_qname q = true /\ val_qname env q = Some v /\ qname_deser (lex_qname q) (Some env) = None.
+  exists q env v, wf_qname q = true /\ val_qname env q = Some v
+                  /\ qname_deser (lex_qname q) (Some env) <> Some (expanded_name v).
 Proof.
-  exists (mk_qname_sp (Some [112]) [97; 769]), [(Some [112], [117;114;110;58;97])], (Some [117;114;110;58;97], [97; 769]).
-  repeat split; vm_compute; reflexivity.
+  exists (mk_qname_sp None [120; 5760]), [], (None, [120; 5760]).
+  split; [vm_compute; reflexivity|]. split; [vm_compute; reflexivity|]. vm_compute. discriminate.
 Qed.
 
 Example qname_accepts_guard_nonvacuous :
-  let q := mk_qname_sp (Some [112; 45; 113]) [233; 116; 233; 46; 49; 95] in
-  wf_qname q = true /\ qname_sp_py_guard q = true
+  let q := mk_qname_sp (Some [112; 45; 113]) [97; 769; 3634; 183; 8255] in
+  wf_qname q = true /\ qname_sp_edge_guard q = true
   /\ qname_deser ([32; 10] ++ lex_qname q ++ [9]) (Some [(Some [112; 45; 113], [117;114;110;58;97])])
-     = Some ([123;117;114;110;58;97;125] ++ [233; 116; 233; 46; 49; 95]).
+     = Some ([123;117;114;110;58;97;125] ++ [97; 769; 3634; 183; 8255]).
 Proof. cbv zeta. repeat split; vm_compute; reflexivity. Qed.
 
 (* ---- round trip --------------------------------------------------------------------------- *)
@@ -248,7 +281,7 @@ Proof.
 Qed.
 
 Lemma resolve_local local m :
-  is_ncname local = true ->
+  good_name local = true ->
   qname_resolve local m = Some (lookup_uri None m, local).
 Proof.
   intros H. pose proof (resolve_qlex None local m [] [] H I eq_refl eq_refl) as R.
@@ -256,7 +289,7 @@ Proof.
 Qed.
 
 Lemma resolve_prefixed pc pr local m :
-  is_ncname local = true -> is_ncname (pc :: pr) = true ->
+  good_name local = true -> good_name (pc :: pr) = true ->
   qname_resolve (pc :: pr ++ 58 :: local) m
   = if negb (truthy (lookup_uri (Some (pc :: pr)) m)) then None else Some (lookup_uri (Some (pc :: pr)) m, local).
 Proof.
@@ -265,10 +298,11 @@ Proof.
 Qed.
 
 Lemma resolve_clark c u local :
-  is_ncname local = true -> mem 125 (c :: u) = false -> is_uri (Some (c :: u)) = true ->
+  good_name local = true -> mem 125 (c :: u) = false -> is_uri (Some (c :: u)) = true ->
   qname_resolve ([123] ++ (c :: u) ++ [125] ++ local) None = Some (Some (c :: u), local).
 Proof.
-  intros Hl Hu Hi. destruct (is_ncname_chars local Hl) as [Ln Lc]. unfold qname_resolve.
+  intros Hg Hu Hi. destruct (good_name_parts local Hg) as [Hl [_ Ll]].
+  destruct (is_ncname_chars local Hl) as [Ln Lc]. unfold qname_resolve.
   rewrite py_strip_id.
   - cbn [app]. cbn [N.eqb Pos.eqb].
     pose proof (text_split_at 125 (c :: u) local Hu Ln) as T. cbn [app] in T. rewrite T. rewrite Hi. cbn [negb].
@@ -277,10 +311,10 @@ Proof.
   - reflexivity.
   - rewrite last_app_nonempty by discriminate.
     rewrite last_app_nonempty by discriminate.
-    rewrite last_app_nonempty by exact Ln. apply ncname_char_not_space, forallb_last; assumption.
+    rewrite last_app_nonempty by exact Ln. exact Ll.
 Qed.
 
-Lemma standard_prefixes_ok : forallb (fun r => is_ncname (snd r)) standard_namespaces = true.
+Lemma standard_prefixes_ok : forallb (fun r => good_name (snd r)) standard_namespaces = true.
 Proof. vm_compute. reflexivity. Qed.
 
 Lemma assoc_str_in k l v : assoc_str k l = Some v -> In (k, v) l.
@@ -289,23 +323,34 @@ Proof.
   destruct (str_eqb_spec k' k) as [->|]; intros H; [inversion H; left; reflexivity|right; apply IH, H].
 Qed.
 
-Lemma generated_prefix_ok n : is_ncname (generated_prefix_stem ++ to_dec n) = true.
+Lemma digit_ncname_char c : is_ascii_digit c = true -> ncname_char c = true.
 Proof.
-  assert (S : generated_prefix_stem = [110; 115]) by reflexivity. rewrite S.
-  cbn [app is_ncname]. apply andb_true_iff. split; [vm_compute; reflexivity|].
-  cbn [forallb]. apply andb_true_iff. split; [vm_compute; reflexivity|].
-  eapply forallb_impl; [|apply to_dec_digits]. intros c Hc. unfold ncname_char.
-  rewrite (py_isdigit_ascii c Hc). rewrite orb_true_r. reflexivity.
+  intros H. pose proof H as R. apply is_ascii_digit_range in R.
+  assert (T : forallb (fun c => negb (is_ascii_digit c) || ncname_char c) (upto 128) = true) by (vm_compute; reflexivity).
+  pose proof (forall_lt _ 128 T c ltac:(lia)) as P. cbn beta in P. rewrite H in P. exact P.
 Qed.
 
-Lemma free_prefix_ok fuel : forall n m, is_ncname (free_prefix fuel n m) = true.
+Lemma generated_prefix_ok n : good_name (generated_prefix_stem ++ to_dec n) = true.
+Proof.
+  assert (S : generated_prefix_stem = [110; 115]) by reflexivity. rewrite S.
+  unfold good_name. apply andb_true_iff. split.
+  - cbn [app is_ncname]. apply andb_true_iff. split; [vm_compute; reflexivity|].
+    cbn [forallb]. apply andb_true_iff. split; [vm_compute; reflexivity|].
+    eapply forallb_impl; [|apply to_dec_digits]. apply digit_ncname_char.
+  - unfold name_edges_ok. cbn [app hd]. apply andb_true_iff. split; [vm_compute; reflexivity|].
+    change (110 :: 115 :: to_dec n) with ([110; 115] ++ to_dec n).
+    rewrite last_app_nonempty by apply to_dec_nonempty.
+    rewrite (ascii_digit_not_space _ (all_digits_last _ (to_dec_digits n) (to_dec_nonempty n))). reflexivity.
+Qed.
+
+Lemma free_prefix_ok fuel : forall n m, good_name (free_prefix fuel n m) = true.
 Proof.
   induction fuel as [|k IH]; intros n m; cbn [free_prefix]; [apply generated_prefix_ok|].
   destruct (ns_has (Some (generated_prefix_stem ++ to_dec n)) m); [apply IH|apply generated_prefix_ok].
 Qed.
 
 Lemma generate_prefix_ok u m p m' :
-  generate_prefix u m = (p, m') -> is_ncname p = true /\ m' = ns_set (Some p) u m.
+  generate_prefix u m = (p, m') -> good_name p = true /\ m' = ns_set (Some p) u m.
 Proof.
   unfold generate_prefix. remember (assoc_str u standard_namespaces) as o eqn:E.
   intros H. injection H as <- <-. split; [|reflexivity].
@@ -329,9 +374,10 @@ Lemma qname_roundtrip uri local m :
                /\ qname_deser s m' = Some (qname_text uri local).
 Proof.
   unfold qname_rt_guard, qname_rt_inputs_ok, qname_text. intros G.
-  apply andb_true_iff in G as [G Gd]. apply andb_true_iff in G as [G Gc].
-  apply andb_true_iff in G as [G Gm]. apply andb_true_iff in G as [Hl Gu].
-  destruct (is_ncname_chars local Hl) as [Ln Lc].
+  apply andb_true_iff in G as [G Gedge]. apply andb_true_iff in G as [G Gd]. apply andb_true_iff in G as [G Gc].
+  apply andb_true_iff in G as [G Gm]. apply andb_true_iff in G as [Hn Gu].
+  assert (Hl : good_name local = true) by (unfold good_name; rewrite Hn; exact Gedge).
+  destruct (is_ncname_chars local Hn) as [Ln Lc].
   destruct m as [mm|].
   - (* with a prefix map *)
     destruct uri as [[|c u]|]; [discriminate| |].
@@ -351,7 +397,7 @@ Proof.
            rewrite (resolve_local local (Some mm) Hl). use_lookup L. reflexivity.
       * destruct (generate_prefix (c :: u) mm) as [p m'] eqn:Ge.
         destruct (generate_prefix_ok _ _ _ _ Ge) as [Pp ->].
-        destruct (is_ncname_chars p Pp) as [Pn _].
+        destruct (good_name_parts p Pp) as [Pp' _]. destruct (is_ncname_chars p Pp') as [Pn _].
         destruct p as [|pc pr]; [congruence|].
         eexists. eexists. split; [reflexivity|]. unfold qname_deser.
         rewrite (resolve_prefixed pc pr local _ Hl Pp).
@@ -361,7 +407,7 @@ Proof.
           destruct (ns_set (Some (pc :: pr)) (c :: u) mm); [congruence|exact Gs]. }
         use_lookup L. reflexivity.
     + (* no namespace: the map must not have a default namespace *)
-      unfold qname_ser. cbn [clark]. rewrite (split_qname_local local Hl).
+      unfold qname_ser. cbn [clark]. rewrite (split_qname_local local Hn).
       destruct local as [|l0 lr] eqn:El; [congruence|]. rewrite <- El in *.
       eexists. eexists. split; [reflexivity|]. unfold qname_deser.
       rewrite (resolve_local local (Some mm) Hl).
@@ -414,14 +460,14 @@ Qed.
 
 (* Clark notation round trip for every plain ASCII namespace name *)
 Lemma qname_roundtrip_clark_plain u local :
-  spec_uri_plain u = true -> is_ncname local = true ->
+  spec_uri_plain u = true -> is_ncname local = true -> name_edges_ok local = true ->
   qname_deser (qname_text (Some u) local) None = Some (qname_text (Some u) local)
   /\ qname_ser (qname_text (Some u) local) None = Some (qname_text (Some u) local, None).
 Proof.
-  intros Hu Hl. split; [|reflexivity].
+  intros Hu Hl He. split; [|reflexivity].
   assert (G : qname_rt_guard (Some u) local None = true).
-  { unfold qname_rt_guard, qname_rt_inputs_ok, qname_rt_clause_clark, qname_rt_clause_default, clark_uri_ok.
-    rewrite Hl, (is_uri_accepts_plain u Hu). cbn [andb].
+  { unfold qname_rt_guard, qname_rt_inputs_ok, qname_rt_clause_clark, qname_rt_clause_default, clark_uri_ok, qname_rt_clause_edges.
+    rewrite Hl, He, (is_uri_accepts_plain u Hu). cbn [andb]. rewrite !andb_true_r.
     pose proof Hu as Hu'. unfold spec_uri_plain in Hu'. apply andb_true_iff in Hu' as [Hn Hc].
     destruct u as [|c r]; [discriminate|].
     rewrite (forallb_not_mem uri_plain_char 125 (c :: r)); [reflexivity|reflexivity|exact Hc]. }
@@ -441,6 +487,16 @@ Lemma qname_roundtrip_clark_refuted :
 Proof.
   exists [117;114;110;58;252], [120].
   split; [vm_compute; reflexivity|]. intros s m' H. vm_compute in H. inversion H; subst. vm_compute. reflexivity.
+Qed.
+
+(* clause name_edges_ok: str.strip() eats U+1680, an XML NameStartChar *)
+Lemma qname_roundtrip_edges_refuted :
+  exists local, is_ncname local = true /\
+    exists s m', qname_ser (qname_text None local) None = Some (s, m')
+                 /\ qname_deser s m' <> Some (qname_text None local).
+Proof.
+  exists [120; 5760]. split; [vm_compute; reflexivity|].
+  eexists. eexists. split; [vm_compute; reflexivity|]. vm_compute. discriminate.
 Qed.
 
 (* clause no_default_ns *)
